@@ -214,7 +214,7 @@ def gen_cases(rng, tier):
     yield from hostile_bytes_cases(rng, tier)
     # the transport reports a failed write at poll_flush (buffering transports do): the handler goes on in four ways; the task must end
     from fvgen import case
-    for variant in (0, 1, 2, 3):
+    for variant in (0, 1, 2, 3, 4):
         for fail_at in (1, 2, 3):
             yield case("flush_fault", [variant, fail_at]), ["flush-fault"]
     yield from close_readahead_fault_cases(rng, tier)
